@@ -1,6 +1,288 @@
-use crate::json::J;
-use rustc_middle::ty::TyCtxt;
+//! Layout oracle: evaluates rustc's own `layout_of` query on GenericArray<E, N> for a lattice of element
+//! types (type aliases `E_*` of the witness crate) and lengths (built here from their binary digits),
+//! and checks size / alignment / the offset of every element-bearing field of every storage node.
+//! Nothing of the crate is executed: this is a query over types.
+//!
+//! Request file (GAV_LAYOUT): lines `lens <n> <n> ...` (decimal), `zst_only <n> ...` (lengths probed
+//! with zero-sized elements only), `samples <k>`.
 
-pub fn run<'tcx>(_tcx: TyCtxt<'tcx>, _req: &str, _errors: &mut Vec<String>) -> J {
-    J::Null
+use crate::export::{path, ty_str};
+use crate::json::J;
+use rustc_abi::FieldsShape;
+use rustc_hir::def::DefKind;
+use rustc_middle::ty::layout::{LayoutCx, LayoutError, TyAndLayout};
+use rustc_middle::ty::{self, Ty, TyCtxt, TypingEnv};
+use std::collections::HashMap;
+
+struct Cx<'tcx> {
+    tcx: TyCtxt<'tcx>,
+    env: TypingEnv<'tcx>,
+    memo: HashMap<(Ty<'tcx>, Ty<'tcx>), Result<u128, String>>,
+    nodes: u64,
+}
+
+struct Lattice<'tcx> {
+    ga: ty::AdtDef<'tcx>,
+    uint: ty::AdtDef<'tcx>,
+    uterm: Ty<'tcx>,
+    b0: Ty<'tcx>,
+    b1: Ty<'tcx>,
+}
+
+fn adt_parts<'tcx>(t: Ty<'tcx>) -> Option<(ty::AdtDef<'tcx>, ty::GenericArgsRef<'tcx>)> {
+    match t.kind() {
+        ty::TyKind::Adt(d, a) => Some((*d, *a)),
+        _ => None,
+    }
+}
+
+fn mk_len<'tcx>(tcx: TyCtxt<'tcx>, l: &Lattice<'tcx>, n: u64) -> Ty<'tcx> {
+    let mut t = l.uterm;
+    if n == 0 {
+        return t;
+    }
+    let bits = 64 - n.leading_zeros();
+    for i in (0..bits).rev() {
+        let b = if (n >> i) & 1 == 1 { l.b1 } else { l.b0 };
+        t = Ty::new_adt(tcx, l.uint, tcx.mk_args(&[t.into(), b.into()]));
+    }
+    t
+}
+
+impl<'tcx> Cx<'tcx> {
+    fn layout(&self, t: Ty<'tcx>) -> Result<TyAndLayout<'tcx>, &'tcx LayoutError<'tcx>> {
+        self.tcx.layout_of(self.env.as_query_input(t))
+    }
+
+    /// Verifies that `node` (laid out as `lay`) holds its elements of type `elem` exactly at
+    /// offsets {i * size(elem)} and nothing else but 1-aligned zero-sized markers.
+    /// Returns the number of elements.
+    fn check_node(&mut self, lay: TyAndLayout<'tcx>, elem: Ty<'tcx>, se: u64, ae: u64) -> Result<u128, String> {
+        let key = (lay.ty, elem);
+        if let Some(r) = self.memo.get(&key) {
+            return r.clone();
+        }
+        self.nodes += 1;
+        let r = self.check_node_inner(lay, elem, se, ae);
+        self.memo.insert(key, r.clone());
+        r
+    }
+
+    fn check_node_inner(&mut self, lay: TyAndLayout<'tcx>, elem: Ty<'tcx>, se: u64, ae: u64) -> Result<u128, String> {
+        let t = lay.ty;
+        if t == elem {
+            return Ok(1);
+        }
+        if lay.align.abi.bytes() != ae {
+            return Err(format!("node {} has alignment {} but the element's is {}", ty_str(t), lay.align.abi.bytes(), ae));
+        }
+        match t.kind() {
+            ty::TyKind::Array(inner, n) => {
+                let n = n.try_to_target_usize(self.tcx).ok_or_else(|| "array length not evaluable".to_string())? as u128;
+                if *inner != elem {
+                    return Err(format!("base array {} is not an array of the element type", ty_str(t)));
+                }
+                if lay.size.bytes() as u128 != n * se as u128 {
+                    return Err(format!("array node {} has size {}", ty_str(t), lay.size.bytes()));
+                }
+                Ok(n)
+            }
+            ty::TyKind::Adt(def, _) if def.is_struct() => {
+                let cx = LayoutCx::new(self.tcx, self.env);
+                let nf = lay.fields.count();
+                if !matches!(lay.fields, FieldsShape::Arbitrary { .. }) && nf > 0 {
+                    return Err(format!("node {} has a non-struct field shape", ty_str(t)));
+                }
+                let mut parts: Vec<(u64, u128, String)> = Vec::new(); // (offset, count, ty)
+                for i in 0..nf {
+                    let f = lay.field(&cx, i);
+                    let off = lay.fields.offset(i).bytes();
+                    if f.ty != elem && f.ty.is_phantom_data() && f.size.bytes() == 0 && f.align.abi.bytes() == 1 {
+                        continue; // PhantomData-like marker
+                    }
+                    let c = self.check_node(f, elem, se, ae)?;
+                    if f.ty != elem && f.size.bytes() as u128 != c * se as u128 {
+                        return Err(format!("child {} has size {} for {} elements", ty_str(f.ty), f.size.bytes(), c));
+                    }
+                    parts.push((off, c, ty_str(f.ty)));
+                }
+                parts.sort();
+                let mut count: u128 = 0;
+                for (off, c, fty) in parts.iter() {
+                    let want = count * se as u128;
+                    if *off as u128 != want {
+                        // zero-sized pieces may sit anywhere aligned; non-empty ones must be adjacent
+                        if !(*c == 0 || se == 0) || (*off % ae.max(1)) != 0 {
+                            return Err(format!("in {}: field of type {} at byte {} but its first element belongs at byte {}", ty_str(t), fty, off, want));
+                        }
+                    }
+                    count += *c;
+                }
+                if lay.size.bytes() as u128 != count * se as u128 {
+                    return Err(format!("node {} has size {} but holds {} elements of {} bytes (padding or overlap)", ty_str(t), lay.size.bytes(), count, se));
+                }
+                Ok(count)
+            }
+            _ => Err(format!("unexpected storage node type {}", ty_str(t))),
+        }
+    }
+}
+
+pub fn run<'tcx>(tcx: TyCtxt<'tcx>, req: &str, errors: &mut Vec<String>) -> J {
+    let text = match std::fs::read_to_string(req) {
+        Ok(t) => t,
+        Err(e) => {
+            errors.push(format!("layout request unreadable: {}", e));
+            return J::Null;
+        }
+    };
+    let mut lens: Vec<u64> = Vec::new();
+    let mut zst_lens: Vec<u64> = Vec::new();
+    let mut nsamples = 6usize;
+    for line in text.lines() {
+        let mut it = line.split_whitespace();
+        match it.next() {
+            Some("lens") => lens.extend(it.filter_map(|x| x.parse::<u64>().ok())),
+            Some("zst_only") => zst_lens.extend(it.filter_map(|x| x.parse::<u64>().ok())),
+            Some("samples") => nsamples = it.next().and_then(|x| x.parse().ok()).unwrap_or(6),
+            _ => {}
+        }
+    }
+    // locate SEED and element aliases
+    let mut seed: Option<Ty<'tcx>> = None;
+    let mut elems: Vec<(String, Ty<'tcx>)> = Vec::new();
+    for id in tcx.hir_free_items() {
+        let did = id.owner_id.def_id.to_def_id();
+        if tcx.def_kind(did) == DefKind::TyAlias {
+            let name = tcx.item_name(did).to_string();
+            let t = tcx.type_of(did).instantiate_identity().skip_norm_wip();
+            if name == "SEED" {
+                seed = Some(t);
+            } else if name.starts_with("E_") {
+                elems.push((name, t));
+            }
+        }
+    }
+    let env = TypingEnv::fully_monomorphized();
+    let seed = match seed {
+        Some(s) => tcx.normalize_erasing_regions(env, ty::Unnormalized::new_wip(s)),
+        None => {
+            errors.push("no SEED alias in witness crate".to_string());
+            return J::Null;
+        }
+    };
+    let lat = (|| {
+        let (ga, a) = adt_parts(seed)?;
+        let n = a.type_at(1);
+        let (uint, ua) = adt_parts(n)?;
+        let b0 = ua.type_at(1);
+        let (_, ia) = adt_parts(ua.type_at(0))?;
+        Some(Lattice { ga, uint, uterm: ia.type_at(0), b0, b1: ia.type_at(1) })
+    })();
+    let lat = match lat {
+        Some(l) => l,
+        None => {
+            errors.push("SEED alias does not have the shape GenericArray<u8, UInt<UInt<UTerm, B1>, B0>>".to_string());
+            return J::Null;
+        }
+    };
+    let mut cx = Cx { tcx, env, memo: HashMap::new(), nodes: 0 };
+    let mut failures: Vec<J> = Vec::new();
+    let mut samples: Vec<J> = Vec::new();
+    let mut elem_info: Vec<J> = Vec::new();
+    let mut probes: u64 = 0;
+    let mut ok: u64 = 0;
+    let mut uninhabitable: u64 = 0;
+    const MAX_OBJ: u128 = 1u128 << 61; // rustc's object size bound on 64-bit targets
+    for (name, et) in elems.iter() {
+        let et = tcx.normalize_erasing_regions(env, ty::Unnormalized::new_wip(*et));
+        let el = match cx.layout(et) {
+            Ok(l) => l,
+            Err(e) => {
+                errors.push(format!("element {} has no layout: {:?}", name, e));
+                continue;
+            }
+        };
+        let (se, ae) = (el.size.bytes(), el.align.abi.bytes());
+        let mut n_e = 0u64;
+        let all: Vec<u64> = if se == 0 { lens.iter().chain(zst_lens.iter()).cloned().collect() } else { lens.clone() };
+        for &n in all.iter() {
+            probes += 1;
+            n_e += 1;
+            let nty = mk_len(tcx, &lat, n);
+            let gt = Ty::new_adt(tcx, lat.ga, tcx.mk_args(&[et.into(), nty.into()]));
+            let total = n as u128 * se as u128;
+            let lay = match cx.layout(gt) {
+                Ok(l) => l,
+                Err(e) => {
+                    if total >= MAX_OBJ {
+                        uninhabitable += 1; // the type cannot exist in any program; neither pass nor fail
+                    } else {
+                        failures.push(J::obj(vec![("elem", J::s(name.clone())), ("n", J::Int(n as i128)), ("reason", J::s(format!("layout_of failed: {:?}", e)))]));
+                    }
+                    continue;
+                }
+            };
+            let mut reason: Option<String> = None;
+            if lay.size.bytes() as u128 != total {
+                reason = Some(format!("size {} != N * size_of(T) = {}", lay.size.bytes(), total));
+            } else if lay.align.abi.bytes() != ae {
+                reason = Some(format!("align {} != align_of(T) = {}", lay.align.abi.bytes(), ae));
+            } else {
+                // GenericArray is a struct with one non-marker field: the storage
+                match cx.check_node(lay, et, se, ae) {
+                    Ok(c) if c == n as u128 => {}
+                    Ok(c) => reason = Some(format!("storage holds {} elements, expected {}", c, n)),
+                    Err(e) => reason = Some(e),
+                }
+            }
+            match reason {
+                None => {
+                    ok += 1;
+                    if samples.len() < nsamples && (n == 5 || n == 6 || n > 1000) && samples.iter().all(|_| true) {
+                        let lcx = LayoutCx::new(tcx, env);
+                        let mut fields = Vec::new();
+                        if lay.fields.count() > 0 {
+                            let st = lay.field(&lcx, 0);
+                            for i in 0..st.fields.count() {
+                                let f = st.field(&lcx, i);
+                                fields.push(J::obj(vec![
+                                    ("offset", J::Int(st.fields.offset(i).bytes() as i128)),
+                                    ("size", J::Int(f.size.bytes() as i128)),
+                                    ("ty", J::s(if ty_str(f.ty).len() > 120 { format!("{}...", &ty_str(f.ty)[..120]) } else { ty_str(f.ty) })),
+                                ]));
+                            }
+                        }
+                        samples.push(J::obj(vec![
+                            ("elem", J::s(name.clone())),
+                            ("elem_size", J::Int(se as i128)),
+                            ("elem_align", J::Int(ae as i128)),
+                            ("n", J::Int(n as i128)),
+                            ("size", J::Int(lay.size.bytes() as i128)),
+                            ("align", J::Int(lay.align.abi.bytes() as i128)),
+                            ("top_node_fields", J::Arr(fields)),
+                        ]));
+                    }
+                }
+                Some(r) => failures.push(J::obj(vec![("elem", J::s(name.clone())), ("n", J::Int(n as i128)), ("reason", J::s(r))])),
+            }
+        }
+        elem_info.push(J::obj(vec![
+            ("name", J::s(name.clone())),
+            ("ty", J::s(ty_str(et))),
+            ("size", J::Int(se as i128)),
+            ("align", J::Int(ae as i128)),
+            ("lengths", J::Int(n_e as i128)),
+        ]));
+    }
+    let _ = path;
+    J::obj(vec![
+        ("probes", J::Int(probes as i128)),
+        ("ok", J::Int(ok as i128)),
+        ("uninhabitable", J::Int(uninhabitable as i128)),
+        ("nodes_checked", J::Int(cx.nodes as i128)),
+        ("failures", J::Arr(failures)),
+        ("samples", J::Arr(samples)),
+        ("elems", J::Arr(elem_info)),
+    ])
 }
